@@ -60,6 +60,8 @@ def e2e(params):
             bad.append({"problems": ["negative label accepted"]})
         except AssertionError:
             pass
+    r = many({})  # label values / component counts at the edge of a dtype
+    bad += r["problems"]
     return {"violated": bool(bad), "problems": bad[:4]}
 
 
@@ -84,15 +86,20 @@ def many(params):
     # semantic label values at the edge of a dtype (re-typing must not change a value): 255 / 256 / 257 in 16- and 32-bit inputs
     for dt in (np.uint16, np.int16, np.int32, np.uint32):
         for top in (255, 256, 257):
+          for asym in (0, 1, 2):
             a = np.zeros((12,), dt); a[1:3] = top; a[5] = 1
             b = np.zeros((12,), dt); b[1:2] = 2; b[7:9] = top
+            if asym == 1:
+                b[b == top] = 3  # only the prediction carries the large label
+            elif asym == 2:
+                a[a == top] = 3  # only the reference carries it
             for be in (None, "cc3d", "scipy"):
                 try:
                     bb = check_approx(a.copy(), b.copy(), be)
                 except Exception as e:
                     bb = [f"raised {type(e).__name__}: {e}"[:160]]
                 if bb:
-                    bad.append({"semantic_label": top, "dtype": np.dtype(dt).name, "backend": be, "problems": bb[:2]})
+                    bad.append({"semantic_label": top, "dtype": np.dtype(dt).name, "backend": be, "large_label_on": ["both", "prediction", "reference"][asym], "problems": bb[:2]})
                     break
     return {"violated": bool(bad), "problems": bad[:3]}
 
@@ -133,6 +140,10 @@ def bounded(params):
             pass
         if bad:
             failures.append({"input": {"dtype": str(dt)}, "problems": bad[:3], "replay_kind": "c05.e2e"})
+    r = many({})
+    evals += 1
+    for pb in r["problems"][:2]:
+        failures.append({"input": pb, "problems": pb.get("problems", []), "replay_kind": "c05.many"})
     return {"evaluations": evals, "distinct_nontrivial": nontriv, "failures": failures, "exhaustive": tier != "quick",
             "rule": "all (quick: 120 seeded) 3-label arrays of shape (5,), (2,3), (2,2,2) x backend {default, cc3d, scipy}: result compared with a flood-fill specification (full connectivity per label for cc3d, face connectivity for scipy); non-trivial = more than one label present",
             "bound": "<= 8 voxels, labels {0,1,2}"}
